@@ -127,19 +127,23 @@ func requirement(w *World, d *Deployed, c *CallInfo) wReq {
 			}
 		}
 		if nf != nil {
-			if it, err := w.readNoHook(nf.Hash, "alphabetAddress"); err == nil {
-				if h, ok := argHash160(it); ok {
-					r.alts = append(r.alts, wAlt(h))
-				}
-			}
+			// the stored keys' 2n/3+1 account is computed here from the key list,
+			// not read from the contract's own alphabetAddress
 			if it, err := w.readNoHook(nf.Hash, "alphabetList"); err == nil {
+				var ks keys.PublicKeys
 				for _, n := range ItemArr(it) {
 					f := ItemArr(n)
 					if len(f) > 0 {
 						if h, ok := keyHash(ItemBytes(f[0])); ok {
 							r.alts = append(r.alts, wAlt(h))
 						}
+						if k, err := keys.NewPublicKeyFromBytes(ItemBytes(f[0]), nil); err == nil {
+							ks = append(ks, k)
+						}
 					}
+				}
+				if h, ok := multisigHash(len(ks)*2/3+1, ks); ok {
+					r.alts = append(r.alts, wAlt(h))
 				}
 			}
 		}
@@ -677,12 +681,32 @@ func verifyMethods(r *Run, w *World, stranger util.Uint160) {
 			continue
 		}
 		accept := map[util.Uint160]bool{}
+		extraSets := map[string][]Signer{}
 		if d.Repo == "processing" {
 			for _, x := range w.C {
 				if x.Repo == "neofs" {
-					if it, err := w.Read(x.Hash, "alphabetAddress"); err == nil {
-						if h, ok := argHash160(it); ok {
+					if it, err := w.Read(x.Hash, "alphabetList"); err == nil {
+						var ks keys.PublicKeys
+						for _, n := range ItemArr(it) {
+							if f := ItemArr(n); len(f) > 0 {
+								if k, err := keys.NewPublicKeyFromBytes(ItemBytes(f[0]), nil); err == nil {
+									ks = append(ks, k)
+								}
+							}
+						}
+						if h, ok := multisigHash(len(ks)*2/3+1, ks); ok {
 							accept[h] = true
+							// the documented account is also what alphabetAddress must say
+							if a, err := w.Read(x.Hash, "alphabetAddress"); err == nil {
+								if ah, ok := argHash160(a); !ok || ah != h {
+									r.Violation("C03/verify-mismatch", "", "neofs.alphabetAddress is not the 2n/3+1 account of the %d stored keys", len(ks))
+								}
+							}
+							if len(ks)/2+1 != len(ks)*2/3+1 {
+								if mh, ok := multisigHash(len(ks)/2+1, ks); ok {
+									extraSets["stored-keys-majority-account"] = []Signer{bare("stored-majority", mh, transaction.Global)}
+								}
+							}
 						}
 					}
 				}
@@ -702,6 +726,9 @@ func verifyMethods(r *Run, w *World, stranger util.Uint160) {
 		}
 		for h := range accept {
 			sets["accepted-account"] = []Signer{bare("accepted", h, transaction.Global)}
+		}
+		for k, v := range extraSets {
+			sets[k] = v
 		}
 		var names []string
 		for n := range sets {
